@@ -916,8 +916,16 @@ class Engine:
                 out.append(s2)
                 continue
             ann = self.ty_from_ann(s.annotation)
-            if v.ty.kind == "list" and v.ty.arg.kind == "any" and ann.kind == "list":
-                v = Val(LIST(ann.arg, v.ty.region), v.t)
+
+            def refine(vty, aty):
+                # the annotation names the element types of a freshly built (empty / nested empty) list
+                if vty.kind == "any":
+                    return aty
+                if vty.kind == "list" and aty.kind == "list":
+                    return LIST(refine(vty.arg, aty.arg), vty.region)
+                return vty
+            if v.ty.kind == "list" and ann.kind == "list":
+                v = Val(refine(v.ty, ann), v.t)
             out.extend(self.assign(s.target, v, s2))
         return out
 
@@ -983,6 +991,26 @@ class Engine:
             return out
         raise OutsideSubset(f"assignment target {type(tgt).__name__}")
 
+    def objdict_value(self, h, d: Val, key):
+        owner, attr = d.t
+        return Val(TUPLE(*d.ty.items), [from_int(it, z3.Select(h.get(f"$${attr}#v{c_}", owner), key))
+                                        for c_, it in enumerate(d.ty.items)])
+
+    def objdict_view(self, st, d: Val, what):
+        """items() / keys() / values() of a field dict, in insertion order"""
+        owner, attr = d.t
+        keys = Val(LIST(ANY), st.heap.get(f"{attr}#keys", owner))
+        n = st.heap.len(keys)
+
+        def get(h, j):
+            k = h.at(keys, j)
+            kv = Val(REF(d.ty.arg) if d.ty.arg else ANY, k)
+            if what == "keys":
+                return kv
+            val = self.objdict_value(h, d, k)
+            return val if what == "values" else Val(TUPLE(kv.ty, val.ty), [kv, val])
+        return IterView(n, get)
+
     def as_dict(self, v: Val) -> Val:
         """a local dict value; `{}` is the empty one"""
         if v.ty.kind == "dict":
@@ -993,6 +1021,12 @@ class Engine:
         raise OutsideSubset(f"{v.ty} used as a dict")
 
     def set_attr(self, obj: Val, attr, v: Val, st: State, node):
+        if obj.ty.kind == "ext":
+            from .library import EXT_MODELS
+            m = EXT_MODELS.get((obj.ty.arg, "=" + attr))
+            if m is None:
+                raise OutsideSubset(f"no trusted contract for assigning {obj.ty.arg}.{attr}")
+            return m(self, node, st, obj, v)
         if obj.ty.kind != "ref":
             raise OutsideSubset(f"attribute store on {obj.ty}")
         cls = obj.ty.arg
@@ -1022,6 +1056,13 @@ class Engine:
             v = self.coerce(v, self.field_ty(cls, attr))
             st.heap = st.heap.put(attr, obj.t, to_int(v.t)).put(f"{attr}#none", obj.t, z3.If(v.aux, z3.IntVal(1), z3.IntVal(0)))
             return [st]
+        if not attr.startswith("$") and self.field_ty(cls, attr).kind == "objdict":
+            # a dict keyed by objects, kept in a field: insertion-ordered key list + one ghost array per value component
+            if v.ty.kind != "emptydict":
+                raise OutsideSubset(f"{cls}.{attr} assigned something that is not a fresh empty dict")
+            keys = self.alloc_list(st, ANY, [])
+            st.heap = st.heap.put(f"{attr}#keys", obj.t, keys.t).put(f"$${attr}#has", obj.t, z3.K(I, z3.IntVal(0)))
+            return [st]
         if not attr.startswith("$") and self.field_ty(cls, attr).kind == "cachedict":
             if v.ty.kind != "emptydict":
                 raise OutsideSubset(f"{cls}.{attr} assigned something that is not a fresh empty dict")
@@ -1041,6 +1082,22 @@ class Engine:
                 raise OutsideSubset(f"cache key {idx.t!r} is not a @_dispatcher_cache method name")
             st.heap = st.heap.put(f"$cache_has:{idx.t}", lst.t, z3.IntVal(1)) \
                 .put(f"$cache_val:{idx.t}", lst.t, to_int(v))
+            return [st]
+        if lst.ty.kind == "objdict":
+            owner, attr = lst.t
+            if v.ty.kind != "tuple" or len(v.t) != len(lst.ty.items):
+                raise OutsideSubset(f"value stored in .{attr} is not a {len(lst.ty.items)}-tuple")
+            h = st.heap
+            keys = Val(LIST(ANY), h.get(f"{attr}#keys", owner))
+            has = h.get(f"$${attr}#has", owner)
+            k = to_int(idx)
+            n = h.len(keys)
+            present = z3.Select(has, k) != 0
+            h = h.set_at(keys, n, k).set_len(keys, z3.If(present, n, n + 1))
+            h = h.put(f"$${attr}#has", owner, z3.Store(has, k, z3.IntVal(1)))
+            for c_, item in enumerate(v.t):
+                h = h.put(f"$${attr}#v{c_}", owner, z3.Store(h.get(f"$${attr}#v{c_}", owner), k, to_int(item)))
+            st.heap = h
             return [st]
         if lst.ty.kind == "any" and idx.ty.kind == "str" and isinstance(idx.t, str):
             # opaque mapping (e.g. Schedule.metadata): one ghost field per constant key
@@ -1292,9 +1349,13 @@ class Engine:
             lt = v
 
             def get(h, j, elem=elem, lt=lt):
+                if elem.kind in ("tuple", "tupref"):
+                    return self.unbox(h, elem, h.at(lt, j))
                 return from_int(elem, h.at(lt, j), h.atx(lt, j) if elem.kind == "xint" else None)
 
             return IterView(st.heap.len(lt), get, lt)
+        if v.ty.kind == "objdict":
+            return self.objdict_view(st, v, "keys")
         if v.ty.kind == "tuple":
             items = v.t
 
@@ -1324,6 +1385,8 @@ class Engine:
             return Val(b.ty, z3.If(c, z3.IntVal(0), b.t))
         if a.ty.kind == "tuple" and b.ty.kind == "tuple" and len(a.t) == len(b.t):
             return Val(a.ty, [self.ite_val(c, x, y) for x, y in zip(a.t, b.t)])
+        if a.ty.kind == "str" and b.ty.kind == "str":
+            return a if (isinstance(a.t, str) and a.t == b.t) else Val(STR, None)
         if a.ty.kind == "bool" and b.ty.kind == "int":
             return vint(z3.If(c, z3.If(a.t, 1, 0), b.t))
         if a.ty.kind == "int" and b.ty.kind == "bool":
@@ -1420,6 +1483,26 @@ class Engine:
             out.append((s, self.alloc_list(s, elem, vs)))
         return out
 
+    def box(self, st, v: Val) -> Val:
+        """a tuple stored in a list is a small heap object with one field per component (`tup#k`)"""
+        if v.ty.kind != "tuple":
+            return v
+        r = self.alloc_ref(st)
+        items = []
+        for k, item in enumerate(v.t):
+            b = self.box(st, item)
+            items.append(b.ty)
+            st.heap = st.heap.put(f"tup#{k}", r, to_int(b))
+        return Val(Ty("tupref", None, tuple(items)), r)
+
+    def unbox(self, h, ty: Ty, t) -> Val:
+        """the tuple value of a boxed tuple reference (ty: `tuple` or `tupref` with the component types)"""
+        items = []
+        for k, it in enumerate(ty.items):
+            x = h.get(f"tup#{k}", t)
+            items.append(self.unbox(h, it, x) if it.kind in ("tuple", "tupref") else from_int(it, x))
+        return Val(Ty("tuple", None, tuple(i.ty for i in items)), items)
+
     def alloc_ref(self, st):
         if st.pure is not None:
             raise OutsideSubset("allocation inside a quantified (generator) expression")
@@ -1440,6 +1523,11 @@ class Engine:
         return r
 
     def ev_Attribute(self, e, st):
+        if isinstance(e.value, ast.Name) and e.value.id not in st.env and e.value.id not in self.prog.classes:
+            from .library import MODULE_CONSTANTS
+            dotted = ast.unparse(e)
+            if dotted in MODULE_CONSTANTS:
+                return [(st, MODULE_CONSTANTS[dotted]())]
         out = []
         for s, obj in self.ev(e.value, st):
             if s.status != "run":
@@ -1459,7 +1547,7 @@ class Engine:
             if ca is not None:
                 return self.ev(ca, st)
             raise OutsideSubset(f"class attribute {obj.t}.{attr}")
-        if k in ("list", "deque", "set", "cachedict"):
+        if k in ("list", "deque", "set", "cachedict", "objdict", "dictview"):
             return [(st, Val(Ty("listmethod"), (obj, attr)))]
         if k == "ext":
             from .library import EXT_MODELS
@@ -1514,6 +1602,8 @@ class Engine:
             return [(st, Val(FUNC, ("field", attr, obj)))]
         if ty.kind == "cachedict":
             return [(st, Val(ty, obj.t))]
+        if ty.kind == "objdict":
+            return [(st, Val(ty, (obj.t, attr)))]
         if ty.kind == "tuple":
             return [(st, Val(ty, [from_int(it, st.heap.get(f"{attr}#{k}", obj.t)) for k, it in enumerate(ty.items)]))]
         if ty.kind == "opt":
@@ -1555,6 +1645,15 @@ class Engine:
             if z3.is_int_value(z3.simplify(idx.t)):
                 return [(st, base.t[z3.simplify(idx.t).as_long()])]
             raise OutsideSubset("symbolic tuple index")
+        if base.ty.kind == "objdict":
+            owner, attr = base.t
+            h = st.heap
+            k = to_int(idx)
+            okst, bad = self.split(st, z3.Select(h.get(f"$${attr}#has", owner), k) != 0, "KeyError", node)
+            out = [(b, None) for b in bad]
+            if okst is not None:
+                out.append((okst, self.objdict_value(okst.heap, base, k)))
+            return out
         if base.ty.kind in ("dict", "emptydict"):
             d = self.as_dict(base)
             okst, bad = self.split(st, z3.Select(d.t[0], to_int(idx)), "KeyError", node)
@@ -1578,6 +1677,9 @@ class Engine:
         out = [(b, None) for b in bad]
         if okst is not None:
             elem = base.ty.arg
+            if elem.kind in ("tuple", "tupref"):
+                out.append((okst, self.unbox(okst.heap, elem, okst.heap.at(base, j))))
+                return out
             v = from_int(elem, okst.heap.at(base, j), okst.heap.atx(base, j) if elem.kind == "xint" else None)
             if v.ty.kind in ("ref", "list", "any", "deque"):
                 region = base.ty.region or "c"
@@ -1742,6 +1844,14 @@ class Engine:
         return out
 
     def binop(self, op, a, b, st, node):
+        if a.ty.kind == "ext" or b.ty.kind == "ext":
+            from .library import EXT_MODELS
+            recv = a if a.ty.kind == "ext" else b
+            name = {"Add": "__add__", "Sub": "__sub__", "Mult": "__mul__"}.get(type(op).__name__)
+            m = EXT_MODELS.get((recv.ty.arg, name)) if name else None
+            if m is None:
+                raise OutsideSubset(f"no trusted contract for {type(op).__name__} on a {recv.ty.arg}")
+            return m(self, node, st, a, b)
         if isinstance(op, ast.Mult) and a.ty.kind == "list" and b.ty.kind == "int":
             return [(st, self.list_repeat(st, a, b))]
         if isinstance(op, ast.Add) and a.ty.kind == "list" and b.ty.kind == "list":
@@ -1802,6 +1912,14 @@ class Engine:
             if s.status != "run":
                 out.append((s, None))
                 continue
+            if len(vs) == 2 and (vs[0].ty.kind == "ext" or vs[1].ty.kind == "ext") \
+                    and isinstance(e.ops[0], (ast.Eq, ast.LtE, ast.GtE, ast.Lt, ast.Gt)):
+                from .library import EXT_MODELS
+                recv = vs[0] if vs[0].ty.kind == "ext" else vs[1]
+                m = EXT_MODELS.get((recv.ty.arg, "__cmp__"))
+                if m is not None:
+                    out.extend(m(self, e, s, type(e.ops[0]).__name__, vs[0], vs[1]))
+                    continue
             acc = []
             # ordering comparisons of an Optional[int]: TypeError when it is None, else its value
             if any(isinstance(op, (ast.Lt, ast.LtE, ast.Gt, ast.GtE)) for op in e.ops):
@@ -1818,6 +1936,12 @@ class Engine:
         return out
 
     def compare(self, op, a: Val, b: Val, st, node):
+        if (a.ty.kind == "ext" or b.ty.kind == "ext") and isinstance(op, (ast.Eq, ast.LtE, ast.GtE, ast.Lt, ast.Gt)):
+            from .library import EXT_MODELS
+            recv = a if a.ty.kind == "ext" else b
+            m = EXT_MODELS.get((recv.ty.arg, "__cmp__"))
+            if m is not None:      # operator overloading that BUILDS an expression object (CP-SAT): see ev_Compare
+                raise OutsideSubset("overloaded comparison of external objects outside a call argument")
         if isinstance(op, (ast.Is, ast.IsNot)):
             r = self.identical(a, b)
             return r if isinstance(op, ast.Is) else z3.Not(r)
@@ -1947,6 +2071,8 @@ class Engine:
             return z3.Or([self.equal(x, it, st, None) for it in coll.t])
         if k in ("dict", "emptydict"):
             return z3.Select(self.as_dict(coll).t[0], to_int(x))
+        if k == "objdict":
+            return z3.Select(st.heap.get(f"$${coll.t[1]}#has", coll.t[0]), to_int(x)) != 0
         if k == "ext":
             from .library import EXT_MODELS
             m = EXT_MODELS.get((coll.ty.arg, "__contains__"))
@@ -2017,13 +2143,45 @@ class Engine:
         from .builtins import list_comprehension
         return list_comprehension(self, e, st)
 
+    def ev_DictComp(self, e, st):
+        """{k: v for ... in ...}: an insertion-ordered view (index -> (key, value)); duplicate keys are not merged, so
+        callers that need key uniqueness state it"""
+        from .builtins import eval_generators
+        if len(e.generators) != 1 or e.generators[0].ifs:
+            raise OutsideSubset("dict comprehension with several clauses or a filter")
+        pair = ast.copy_location(ast.Tuple(elts=[e.key, e.value], ctx=ast.Load()), e)
+        cur, q, raising = eval_generators(self, e.generators, pair, st)
+        out = [(r, None) for r in raising]
+        if cur is None:
+            return out
+        v = q.vars[0]
+        n = q.views[0].n
+        elem = q.elem
+        from .builtins import _subst_val
+
+        def get(h, j):
+            return _subst_val(elem, [(v, j)])
+        out.append((cur, Val(Ty("dictview"), IterView(n, get))))
+        return out
+
     def ev_Starred(self, e, st):
         out = []
         for s, v in self.ev(e.value, st):
             out.append((s, Val(Ty("starred"), v) if s.status == "run" else None))
         return out
 
+    def ev_Set(self, e, st):
+        # a set display used for membership tests: its elements
+        return [(s, Val(TUPLE(*[v.ty for v in vs]), vs) if s.status == "run" else None)
+                for s, vs in self.ev_many(e.elts, st)]
+
     def ev_Dict(self, e, st):
+        if e.keys and all(isinstance(k, ast.Constant) and isinstance(k.value, str) for k in e.keys):
+            # {"name": value, ...}: a record with constant keys (only ever forwarded as **kwargs / read by key)
+            out = []
+            for s, vs in self.ev_many(list(e.values), st):
+                out.append((s, Val(Ty("strdict"), {k.value: v for k, v in zip(e.keys, vs)}) if s.status == "run" else None))
+            return out
         if e.keys:
             raise OutsideSubset("non-empty dict display")
         r = self.alloc_ref(st)
